@@ -282,7 +282,10 @@ SEMANTIC += ['f(x:=1, y)\n', 'f(a, x:=1, b)\n', 'f(x:=1, x=2)\n', 'f((x:=1), y)\
              'for i in j:\n    try:\n        continue\n    finally:\n        pass\n', 'for i in j:\n    try:\n        pass\n    except E:\n        continue\n    finally:\n        pass\n',
              'def f():\n    g(a=1)\n    global a\n', 'def f():\n    g(**{"a": 1})\n    global a\n', 'def f():\n    x.a = 1\n    global a\n',
              'f"{x:{a:>5}{b}}"\n', 'f"{x:{a}{b}}"\n', 'f"{x:{a:{b}}}"\n', 'f"{x:{a:>5}}"\n', 'f"{x:>{a}<{b}}"\n', "f'{x:{a!r:>5}{b}}'\n", 'f"{x:{a:>5}{b:<3}c}"\n',
-             'x = 1\n\x0cy = 2\n', 'def f():\n    a\n\x0c    b\n']
+             'x = 1\n\x0cy = 2\n', 'def f():\n    a\n\x0c    b\n',
+             # backslashes in every part of an f-string that is not an expression
+             'f"{x:\\t>5}"\n', 'f"{x:\\x20<3}"\n', "f'{x:\\N{BULLET}^9}'\n", 'f"\\t{x}\\n"\n', 'f"{x!r:\\t>5}"\n', 'f"{x:{w}\\t}"\n', "rf'{x:\\d}'\n", 'f"{x}\\\n{y}"\n',
+             "f'''{x:\\t>5}\n{y}'''\n", 'f"{{\\t}}{x}"\n']
 
 # ---- programs that make each rule of errors.py fire (or sit just beyond its boundary): the error finder must list them without raising ----
 INVALID = [
@@ -344,6 +347,33 @@ def _target_programs():
 
 
 TARGETS = _target_programs()
+
+
+def _comprehension_programs():
+    """comprehension kind x element x loop clauses x enclosing scope: walrus, await, async for, nested loops, conditions, lambdas and yields in every
+    combination (the rules about comprehensions look at several of these at once)"""
+    elems = ['x', '(y := x)', 'await x', '(y := await x)', 'lambda: x', '(lambda: (y := x))()', 'x if x else (y := 1)', '[w for w in x]', '[(v := w) for w in x]',
+             '[w async for w in x]', '(yield x)', 'f(y := x)', 'x[y := 0]']
+    loops = ['for x in z', 'async for x in z', 'for x in z for w in x', 'async for x in z for w in x', 'for x in z async for w in x', 'for x in z if x', 'for x in z if (q := x)',
+             'async for x in z if (q := x)', 'for x, *w in z', 'for x in (y := z)', 'for x in [k for k in z]', 'for x in await z', 'for x in lambda: z']
+    kinds = ['[%s %s]', '{%s %s}', '{%s: 0 %s}', '(%s %s)', 'f(%s %s)', 'f(a, (%s %s))']
+    scopes = ['%s\n', 'def f():\n    return %s\n', 'async def f():\n    return %s\n', 'class C:\n    v = %s\n', 'async def f():\n    def g():\n        return %s\n',
+              'def f():\n    async def g():\n        return %s\n', 'lambda: %s\n']
+    out = []
+    for k in kinds:
+        for e in elems:
+            for l in loops:
+                out.append(k % (e, l))
+    progs = []
+    for i, c in enumerate(out):
+        progs.append(scopes[i % len(scopes)] % c)
+        progs.append(scopes[(i * 3 + 2) % len(scopes)] % c)
+    return progs
+
+
+COMPS = _comprehension_programs()
+
+TARGETS = TARGETS + COMPS
 
 
 def semantic(r):
